@@ -781,7 +781,20 @@ func (o *obs) invokeLive(n *node, s *srv, calls []call) []string {
 	var out []string
 	for _, c := range calls {
 		o.res.Inc("req_invokefunction", 1)
-		if o.r.Intn(2) == 0 {
+		if x := o.r.Intn(5); x == 0 {
+			// the same call as a script (invokescript)
+			script, serr := smartcontract.CreateCallScript(c.Hash, c.Method, c.Args...)
+			if serr != nil {
+				out = append(out, "ERR")
+				continue
+			}
+			r, err := s.cl.InvokeScript(script, nil)
+			if err != nil {
+				out = append(out, "ERR")
+				continue
+			}
+			out = append(out, canonInvoke(r))
+		} else if x < 3 {
 			r, err := s.cl.InvokeFunction(c.Hash, c.Method, c.clientParams(), nil)
 			if err != nil {
 				out = append(out, "ERR")
@@ -821,15 +834,29 @@ func (o *obs) invokeHistoric(n *node, s *srv, h uint32, how string, bhash, root 
 	ev["idx"] = idx
 	for _, c := range calls {
 		o.res.Inc("req_invokefunctionhistoric", 1)
+		// every third call travels as a script (invokescripthistoric)
+		var script []byte
+		if o.r.Intn(3) == 0 {
+			if sc, serr := smartcontract.CreateCallScript(c.Hash, c.Method, c.Args...); serr == nil {
+				script = sc
+				o.res.Inc("req_invokescripthistoric", 1)
+			}
+		}
 		if via == "client" {
 			var (
 				r   *result.Invoke
 				err error
 			)
-			switch how {
-			case "index":
+			switch {
+			case script != nil && how == "index":
+				r, err = s.cl.InvokeScriptAtHeight(h, script, nil)
+			case script != nil && how == "hash":
+				r, err = s.cl.InvokeScriptWithState(bhash, script, nil)
+			case script != nil:
+				r, err = s.cl.InvokeScriptWithState(root, script, nil)
+			case how == "index":
 				r, err = s.cl.InvokeFunctionAtHeight(h, c.Hash, c.Method, c.clientParams(), nil)
-			case "hash":
+			case how == "hash":
 				r, err = s.cl.InvokeFunctionWithState(bhash, c.Hash, c.Method, c.clientParams(), nil)
 			default:
 				r, err = s.cl.InvokeFunctionWithState(root, c.Hash, c.Method, c.clientParams(), nil)
@@ -850,7 +877,16 @@ func (o *obs) invokeHistoric(n *node, s *srv, h uint32, how string, bhash, root 
 			default:
 				first = le256(root, pfx)
 			}
-			r, e, err := s.raw("invokefunctionhistoric", first, le160(c.Hash, pfx), c.Method, c.rawParams(o.r))
+			var (
+				r   json.RawMessage
+				e   *rpcErr
+				err error
+			)
+			if script != nil {
+				r, e, err = s.raw("invokescripthistoric", first, b64(script))
+			} else {
+				r, e, err = s.raw("invokefunctionhistoric", first, le160(c.Hash, pfx), c.Method, c.rawParams(o.r))
+			}
 			if err != nil {
 				o.dropped(n, s, "invokefunctionhistoric", "wellformed", err, h)
 				results = append(results, "UNAVAILABLE")
